@@ -159,7 +159,8 @@ class Models:
         b["sum"] = Builtin("sum", self.m_sum)
         b["NotImplementedError"] = ExcClass("NotImplementedError")
 
-        self.modules["math"] = ModelModule("math", {"floor": Builtin("floor", self.m_floor), "sqrt": Builtin("sqrt", self.m_sqrt)})
+        self.modules["math"] = ModelModule("math", {"floor": Builtin("floor", self.m_floor), "sqrt": Builtin("sqrt", self.m_sqrt), "isclose": Builtin("isclose", self.m_isclose)})
+        self.froms[("math", "isclose")] = self.modules["math"].attrs["isclose"]
         self.froms[("math", "floor")] = self.modules["math"].attrs["floor"]
         self.froms[("math", "sqrt")] = self.modules["math"].attrs["sqrt"]
         self.froms[("collections", "namedtuple")] = Builtin("namedtuple", self.m_namedtuple)
@@ -276,6 +277,18 @@ class Models:
         # defining property of floor, instantiated at this argument (sound: it is a theorem)
         I.path.assume(z3.And(z3.ToReal(r) <= x, x < z3.ToReal(r) + 1))
         return SInt(r)
+
+    def m_isclose(self, I, args, kw):
+        """math.isclose(a, b, *, rel_tol=1e-09, abs_tol=0.0) over the reals: |a - b| <= max(rel_tol * max(|a|, |b|), abs_tol)"""
+        if len(args) != 2 or set(kw) - {"rel_tol", "abs_tol"}:
+            raise Unsupported("math.isclose call shape")
+        a, b = to_real(args[0]), to_real(args[1])
+        rel = to_real(kw["rel_tol"]) if "rel_tol" in kw else z3.RealVal("1/1000000000")
+        ab = to_real(kw["abs_tol"]) if "abs_tol" in kw else z3.RealVal(0)
+        mag = lambda t: z3.If(t >= 0, t, -t)
+        big = z3.If(mag(a) >= mag(b), mag(a), mag(b))
+        tol = z3.If(rel * big >= ab, rel * big, ab)
+        return wrap(mag(a - b) <= tol)
 
     def m_sqrt(self, I, args, kw):
         (v,) = args
